@@ -159,6 +159,7 @@ type Exec struct {
 	mutexes   map[*Value]*mutexState
 	pools     map[*Value][]Value
 	gos       []func()
+	parked    []func()
 	nowCount  int
 	lastNow   *term.T
 	funcsSeen map[*ssa.Function]bool
